@@ -161,7 +161,20 @@ def rule_c(ctx):
         ctx.check(okk, rid, key + ":advance-only-on-none", "position += 1 happens only when load() returned None for the current slot", n.span, why)
         # the Some result is returned as is
         rets = [deep_strip(e) for rb in n.exits() for e in flow(n).place({"l": 0, "p": []}, (rb, len(n.stmts(rb))))]
-        okr = all((e[0] == "call" and e[1] in [l for l, _ in lds]) or (e[0] == "agg" and e[1][2] == "None") for e in rets)
+        ldb = [l for l, _ in lds]
+
+        def from_load(e):
+            if e[0] == "call" and e[1] in ldb:
+                return True
+            if e[0] == "agg" and e[1][0] == "adt" and e[1][2] == "None":
+                return True
+            if e[0] == "agg" and e[1][0] == "adt" and e[1][2] == "Some" and len(e[2]) == 1:
+                # Some(x) rebuilt from the payload of the load's Some
+                x = deep_strip(e[2][0])
+                return x[0] == "field" and deep_strip(x[1])[0] == "downcast" and deep_strip(x[1])[2] == "Some" and \
+                    deep_strip(deep_strip(x[1])[1])[0] == "call" and deep_strip(deep_strip(x[1])[1])[1] in ldb
+            return False
+        okr = all(from_load(e) for e in rets)
         ctx.check(okr, rid, key + ":returns-load-result", "next returns the slot's report unchanged, or None at the end of the table", n.span, [show(e) for e in rets])
 
 
